@@ -25,7 +25,8 @@ package main
 //
 //   If the last run dies (a panic), one more run without steps follows (a supervisor restarts file.d).
 //
-// result: the observed trace (records in the order the code serialised them), then the summary
+// result: `bad-harness` when the harness itself could not attribute an event to a file (not evaluated); else
+// the observed trace (records in the order the code serialised them), then the summary
 //   `lost <n> (<id> <cls>)…` — complete lines that are neither acked in any run nor handed to the
 //   output in the last run; cls 0 = at some crash the line's stream is absent from the saved offsets of its
 //   file and the line ends at or before the minimum saved offset, 1 = anything else.
@@ -46,6 +47,7 @@ import (
 	"strconv"
 	"strings"
 	"sync"
+	"sync/atomic"
 	"syscall"
 	"time"
 
@@ -615,6 +617,12 @@ func execC03(t *hx.Toks) string {
 			ls = append(ls, lost{l.id, cls})
 		}
 	}
+	for _, r := range recs {
+		if r == "bad-harness" {
+			// the harness could not attribute an event to a file: the case says nothing about file.d
+			return "bad-harness"
+		}
+	}
 	res := strings.Join(recs, " ") + fmt.Sprintf(" lost %d", len(ls))
 	for _, l := range ls {
 		res += fmt.Sprintf(" %d %d", l.id, l.cls)
@@ -734,6 +742,9 @@ type c03Child struct {
 	pending []*c03Pending
 	srcToF  map[uint64]int
 	goneSent map[int]bool
+	inoMu    sync.Mutex
+	inoToF   map[uint64]int // inode → file index, filled when the harness first knows a file
+	badHarness atomic.Bool  // an event could not be attributed to a file: the case is not evaluated
 	passed  map[string]int // per (file, stream), guarded by mu
 	outs    map[string]int
 }
@@ -763,16 +774,21 @@ func (h *c03Child) rec(sync bool, do func(), format string, a ...any) {
 	}
 }
 
+// The file index of a source id. A file keeps its inode for its whole life, whatever its name and
+// directory, so the index is resolved through the inode recorded when the harness first knew the file
+// (child start / creation), never through the current names; the source id ↔ inode pair comes from
+// the plugin's job table the first time the source is seen (PassEvent: the job exists then) and is
+// kept, because the job may be released before its last events are handed out, acked and committed.
 func (h *c03Child) fileOf(src uint64) int {
 	if f, ok := h.srcToF[src]; ok {
 		return f
 	}
-	inoToF := map[uint64]int{}
-	for f, p := range h.paths {
-		if ino, ok := c03Inode(p); ok {
-			inoToF[ino] = f
-		}
+	h.inoMu.Lock()
+	inoToF := make(map[uint64]int, len(h.inoToF))
+	for k, v := range h.inoToF {
+		inoToF[k] = v
 	}
+	h.inoMu.Unlock()
 	for _, st := range file.VerifJobStates(h.fp) {
 		if f, ok := inoToF[st.Inode]; ok {
 			h.srcToF[st.SourceID] = f
@@ -781,7 +797,22 @@ func (h *c03Child) fileOf(src uint64) int {
 	if f, ok := h.srcToF[src]; ok {
 		return f
 	}
+	if !h.badHarness.Swap(true) {
+		h.rec(false, nil, "bad-harness")
+	}
+	if os.Getenv("C03_DEBUG") != "" {
+		fmt.Fprintf(os.Stderr, "fileOf(%d) unresolved: inoToF=%v jobs=%+v\n", src, inoToF, file.VerifJobStates(h.fp))
+	}
 	return -1
+}
+
+// record the inode of file f (at child start and right after the harness created the file)
+func (h *c03Child) learnInode(f int) {
+	if ino, ok := c03Inode(h.paths[f]); ok {
+		h.inoMu.Lock()
+		h.inoToF[ino] = f
+		h.inoMu.Unlock()
+	}
 }
 
 // input wrapper: the real file.Plugin behind a plugin that logs PassEvent and Commit
@@ -907,12 +938,12 @@ func (h *c03Child) waitIdle(final bool) bool {
 	deadline := time.Now().Add(15 * time.Second)
 	for time.Now().Before(deadline) {
 		sizes := h.fileSizes()
-		inoToF := map[uint64]int{}
-		for f, p := range h.paths {
-			if ino, ok := c03Inode(p); ok {
-				inoToF[ino] = f
-			}
+		h.inoMu.Lock()
+		inoToF := make(map[uint64]int, len(h.inoToF))
+		for k, v := range h.inoToF {
+			inoToF[k] = v
 		}
+		h.inoMu.Unlock()
 		okc := 0
 		hasJob := map[int]bool{}
 		for _, st := range file.VerifJobStates(h.fp) {
@@ -1046,7 +1077,7 @@ func c03ChildMain(dir string, run int) {
 		start = len(c.steps) // recovery run after a death of the last scripted run: no steps, run until idle
 	}
 	logs := filepath.Join(dir, "logs")
-	h := &c03Child{c: c, dir: dir, logs: logs, run: run, paths: c03Paths(c, logs, start), srcToF: map[uint64]int{}, passed: map[string]int{}, outs: map[string]int{}, goneSent: map[int]bool{}}
+	h := &c03Child{c: c, dir: dir, logs: logs, run: run, paths: c03Paths(c, logs, start), srcToF: map[uint64]int{}, passed: map[string]int{}, outs: map[string]int{}, goneSent: map[int]bool{}, inoToF: map[uint64]int{}}
 	c03LineByID = map[int]string{}
 	for _, l := range c.lines {
 		c03LineByID[l.id] = string(l.data)
@@ -1120,6 +1151,7 @@ func c03ChildMain(dir string, run int) {
 	}
 	sort.Ints(fs)
 	for _, f := range fs {
+		h.learnInode(f)
 		if c03Watched(logs, h.paths[f]) {
 			h.rec(false, nil, "disc %d", f)
 		}
@@ -1143,6 +1175,12 @@ func c03ChildMain(dir string, run int) {
 			h.rec(false, func() {
 				if err := c03FileOp(s, h.paths, logs); err != nil {
 					os.Exit(6)
+				}
+				switch s.op {
+				case "C":
+					h.learnInode(s.f)
+				case "R", "RO":
+					h.learnInode(s.g)
 				}
 			}, "%s", c03FileRec(s))
 			if s.op == "C" {
